@@ -179,13 +179,15 @@ pub fn check(case: &Case) -> Verdict {
     }
     let (_, cnt) = run(&["-c", "-H", "--include-zero"]);
     let (_, cm) = run(&["--count-matches", "-H", "--include-zero"]);
+    // documented normalisation: `-o --count` is `--count-matches` (whatever else is given)
+    let (_, co) = run(&["-c", "-o", "-H", "--include-zero"]);
     let (_, only) = run(&["-o", "-n", "-H", "--no-heading"]);
     let (_, lst) = run(&["-l"]);
     let (_, wo) = run(&["--files-without-match"]);
     let (_, quiet) = run(&["-q"]);
     let (_, json) = run(&["--json"]);
     let (_, stats) = run(&["--stats", "-q"]);
-    for o in [&cnt, &cm, &only, &lst, &wo, &quiet, &json, &stats] {
+    for o in [&cnt, &cm, &co, &only, &lst, &wo, &quiet, &json, &stats] {
         if o.timed_out {
             return Verdict::Reject("timeout (inconclusive)");
         }
@@ -209,6 +211,7 @@ pub fn check(case: &Case) -> Verdict {
     let Some(std_recs) = per_file_prefixed(&std_out.stdout, n) else { return parse_fail("standard mode") };
     let Some(cnt_recs) = per_file_prefixed(&cnt.stdout, n) else { return parse_fail("--count") };
     let Some(cm_recs) = per_file_prefixed(&cm.stdout, n) else { return parse_fail("--count-matches") };
+    let Some(co_recs) = per_file_prefixed(&co.stdout, n) else { return parse_fail("--count --only-matching") };
     let Some(only_recs) = per_file_prefixed(&only.stdout, n) else { return parse_fail("-o") };
     let Some(listed) = file_list(&lst.stdout, n) else { return parse_fail("-l") };
     let Some(without) = file_list(&wo.stdout, n) else { return parse_fail("--files-without-match") };
@@ -346,6 +349,11 @@ pub fn check(case: &Case) -> Verdict {
             problems.push((i, format!("{name}: --count / --count-matches (with --include-zero) did not print exactly one number")));
             continue;
         };
+        // R0: `--count --only-matching` is `--count-matches`
+        match num(&co_recs[i]) {
+            Some(x) if x == m => {}
+            other => problems.push((i, format!("{name}: --count --only-matching prints {other:?}, --count-matches prints {m} (documented to be the same mode)"))),
+        }
         // R1: --count vs printed matching lines (documented: under -U, --count is --count-matches)
         if case.multiline {
             if c != std_lines && c != m {
@@ -428,6 +436,30 @@ pub fn check(case: &Case) -> Verdict {
         let l = listed.iter().filter(|x| **x).count() as u64;
         if fc != l {
             problems.push((usize::MAX, format!("--stats reports {fc} files with matches, -l lists {l}")));
+        }
+    }
+    // R6b: the per-search totals do not depend on the reporting mode --stats is combined with
+    {
+        let l = listed.iter().filter(|x| **x).count() as u64;
+        for (name, flags) in [
+            ("--stats", vec!["--stats", "-n", "-H", "--no-heading"]),
+            ("--stats -c", vec!["--stats", "-c"]),
+            ("--stats --count-matches", vec!["--stats", "--count-matches"]),
+            ("--stats -l", vec!["--stats", "-l"]),
+            ("--stats --files-without-match", vec!["--stats", "--files-without-match"]),
+        ] {
+            let (_, o) = run(&flags);
+            if o.timed_out {
+                return Verdict::Reject("timeout (inconclusive)");
+            }
+            match stat_line(&o.stdout, " files contained matches") {
+                Some(fc) if fc == l => {}
+                other => problems.push((usize::MAX - 1, format!("{name} reports {other:?} files with matches, -l lists {l}"))),
+            }
+            match stat_line(&o.stdout, " files searched") {
+                Some(fs) if fs == n as u64 => {}
+                other => problems.push((usize::MAX, format!("{name} reports {other:?} files searched, the tree has {n}"))),
+            }
         }
     }
     if let Some(fs) = stat_line(&stats.stdout, " files searched") {
